@@ -665,7 +665,7 @@ def evaluate(h, impl, lines, index, replies):
                 if tr[0] not in ms:
                     bad.append(('C15', i, dict(sig, component='events', kind='foreign-mmsi'), f'step {i}: event for unseen MMSI {tr[0]}'))
         prev_tracks, prev_oldest = a['tracks'], a['oldest']
-        if a.get('from_cb'):
+        if a.get('from_cb') and k in ('U', 'C'):      # Proofs/TrackerCbProofs.v step_ok: pop_track may raise anything
             escaped_before = True
     # ---- C14
     for i, (op, a) in enumerate(zip(h['ops'], impl)):
